@@ -264,6 +264,22 @@ def work(task):
                 if j:
                     expect_bool(res, f'{a} / {b2} == {i} / {j}', True, 'int-cmp')
                 res.count('pairs')
+        # booleans are numbers too (True = 1): results of comparisons, literals, host-like ints from len()
+        bools = [('(1 < 2)', Fraction(1)), ('(2 < 1)', Fraction(0)), ('True', Fraction(1)), ('(0.1 + 0.2 == 0.3)', Fraction(1))]
+        others = bools + [('len("abc")', Fraction(3)), ('3', Fraction(3)), ('0.5', Fraction(1, 2)), ('sum([1 < 2, 1 < 2, 1 < 2])', Fraction(3))]
+        for a, fa in bools:
+            for b2, fb in others:
+                for x, fx, y, fy in ((a, fa, b2, fb), (b2, fb, a, fa)):
+                    for op in BINOPS:
+                        try:
+                            want = model_bin(op, fx, fy)
+                        except X.NumError:
+                            want = 'error'
+                        expect_number(res, f'{x} {op} {y}', want, f'bool{op}')
+                        if want != 'error':
+                            expect_number(res, f'({x} {op} {y}) * 3 + 0.5', X.add(X.mul(want, Fraction(3)), Fraction(1, 2)), f'bool{op}-then')
+                        expect_number(res, f'q = {x}; q {op}= {y}; q', want, f'bool{op}=')
+                res.count('pairs')
     elif kind == 'builtins':
         _, As, lits = task
         for a in As:
